@@ -64,6 +64,34 @@ contract(BASE + 'fuzzy_less_than', props=['C02'],
          result=T.bool, spec_env=ENV)
 
 
+# The same two comparators without FP-REAL: the fuzzed threshold is computed in floating point (for an integer
+# bound beyond 2**53, or a non-zero epsilon, b * (1 +- epsilon) is a rounded value), so here fuzz_down / fuzz_up
+# return an ARBITRARY number.  What must hold whatever the rounding does: a value that satisfies the bound under
+# the exact comparison is accepted (this is what lets a column pass its own discovered minimum / maximum, C01).
+
+def _any_number(it, env):
+    return it.fresh(T.real, 'rounded_threshold')
+
+
+class _RoundedThreshold(Contract):
+    def verify(self, registry=None, quick=False):
+        reg = dict(REGISTRY if registry is None else registry)
+        for n in ('fuzz_down', 'fuzz_up'):
+            c = Contract(BASE + n, params=dict(v=None, epsilon=None), effects=_any_number, result=T.none, assumed=True,
+                         name=n + '(rounded)', spec_env=ENV)
+            reg[BASE + n] = c
+        return Contract.verify(self, reg, quick)
+
+
+for _n, _op in (('fuzzy_greater_than', '>='), ('fuzzy_less_than', '<=')):
+    _c = _RoundedThreshold(BASE + _n, props=['C02', 'C01'], params=dict(a=_NUMB, b=_NUMB, epsilon=NUM),
+                           requires=[('eps-nonneg', 'epsilon >= 0')],
+                           ensures=[('exactly-satisfied-bound-is-accepted-whatever-the-rounding',
+                                     'implies(a %s b, result)' % _op)],
+                           result=T.bool, spec_env=ENV, name=_n + '[rounded threshold]')
+    REGISTRY[BASE + _n + '#rounded'] = _c
+
+
 # ---------------------------------------------------------------------------
 # The calculator interface: assumed contracts A-calc.* over the column view
 # ---------------------------------------------------------------------------
